@@ -210,7 +210,8 @@ func (v *visitor) VisitTextLiteral(ctx *gen.TextLiteralContext) any {
 	// if we had an error, just strip surrounding quotes. It's fairly common for text literals
 	// to contain escape sequences which aren't legal in go, e.g. a regex \w+
 	if err != nil {
-		unquoted = value[1 : len(value)-1]
+		// the only way a quote can occur inside the literal is escaped
+		unquoted = strings.ReplaceAll(value[1:len(value)-1], `\"`, `"`)
 	}
 
 	return &TextLiteral{Value: types.NewXText(unquoted)}
